@@ -25,7 +25,7 @@ static const script_t *S; static int cur;  /* script cursor shared by all nestin
 static m_ctx_t *g_ctx;                     /* recorded from pthread_setspecific */
 static int pipe_r[256], pipe_w[256], npipes;
 static int g_errno_leave = -1;
-static int in_blocking_loop, empty_polls;
+static int in_blocking_loop, empty_polls, loop_polls;
 
 /* ---- frames: the events of the innermost on_evt invocation (for `stash`) ---- */
 typedef struct { m_evt_t *ev[128]; int n; } frame_t;
@@ -84,8 +84,9 @@ int __wrap_poll_wait(poll_priv_t *priv, const int timeout) {
      * environment forces a quit (recorded, so that the model can follow) */
     int n = __real_poll_wait(priv, 0);
     if (n < 0) n = 0;
-    if (timeout != 0 && n == 0) {
-        if (++empty_polls >= 3 && g_ctx) {
+    if (timeout != 0) loop_polls++;
+    if (timeout != 0 && (n == 0 || loop_polls > 12)) {
+        if ((++empty_polls >= 3 || loop_polls > 12) && g_ctx) {
             printf("BATCH !quit\n");
             g_ctx->quit = true; g_ctx->quit_code = 77;
             errno = 0;
@@ -195,7 +196,7 @@ static int exec_line(const char *line) {
     if (!strcmp(t[0], "ctx_dereg")) { result(m_ctx_deregister()); return -1; }
     if (!strcmp(t[0], "finalize")) { result(m_ctx_finalize()); return -1; }
     if (!strcmp(t[0], "dispatch")) { result(m_ctx_dispatch()); return -1; }
-    if (!strcmp(t[0], "loop")) { in_blocking_loop++; empty_polls = 0; long r = m_ctx_loop(); in_blocking_loop--; result(r); return -1; }
+    if (!strcmp(t[0], "loop")) { in_blocking_loop++; empty_polls = 0; loop_polls = 0; long r = m_ctx_loop(); in_blocking_loop--; result(r); return -1; }
     if (!strcmp(t[0], "quit") && n == 2) { result(m_ctx_quit((uint8_t)atoi(t[1]))); return -1; }
     if (!strcmp(t[0], "ctx_len")) { result(m_ctx_len()); return -1; }
     if (!strcmp(t[0], "tick") && n == 2) { result(m_ctx_set_tick(strtoull(t[1], NULL, 10))); return -1; }
